@@ -71,7 +71,9 @@ class Ctx:
                            timeout=max(30, self.time_left()))
         if p.returncode != 0:
             raise RuntimeError('driver exited %s: %s' % (p.returncode, p.stderr.decode()[-500:]))
-        lines = p.stdout.decode().splitlines()
+        lines = p.stdout.decode().split('\n')      # not splitlines(): U+0085/U+2028 inside JSON text are not line ends
+        if lines and lines[-1] == '':
+            lines.pop()
         if len(lines) != len(cases):
             raise RuntimeError('driver answered %d lines for %d cases' % (len(lines), len(cases)))
         return [json.loads(l) for l in lines]
